@@ -385,8 +385,19 @@ struct DmHarness : Harness
                         static const char* meta = "\\[](){}*+?|^$.-a,0 9";
                         c = meta[g.below(strlen(meta))];
                     }
+                    if (g.chance(0.08)) {
+                        // text that means something to other interpreters the
+                        // pattern may pass through (printf formats, paths)
+                        static const char* toks[] = { "%s", "%n", "%d", "%x",
+                                                      "%%", "%999999s", "%p",
+                                                      "%hhn", "../", "\\0" };
+                        pat += toks[g.below(10)];
+                        continue;
+                    }
                     pat += (char)c;
                 }
+                if (pat.size() > 255)
+                    pat.resize(255);
                 p.ops.push_back("sel kind=" + std::to_string(kind) +
                                 " class=b pad=0 pat=" + hex_encode(pat));
             } else if (k == 8) {
